@@ -6,7 +6,8 @@
 (* nothing.                                                                *)
 (*                                                                         *)
 (* Values are small integers; NN stands for a non-numeric value (a         *)
-(* string), NONE for "no bound".  A parameter is <<v, lo, hi>>.  The       *)
+(* string), NAN for the float NaN (numeric TYPE, but neither >= nor <= any *)
+(* number, so never "within" a bound), NONE for "no bound".  A parameter is <<v, lo, hi>>.  The       *)
 (* dictionary maps keys 1..NKeys to a parameter id or 0 (absent).          *)
 (* `last` records the last call <<name, args, result>> so that behaviours  *)
 (* produced by TLC can be replayed into the real objects.                  *)
@@ -16,14 +17,17 @@ EXTENDS Integers, Sequences, FiniteSets, TLC
 CONSTANTS NP,          \* number of Parameter objects
           NKeys,       \* dictionary keys
           Vals,        \* numeric values tried
-          NN, NONE     \* codes: non-numeric value, absent bound (integers outside Vals)
+          NN, NONE,    \* codes: non-numeric value, absent bound (integers outside Vals)
+          NAN          \* code of float('nan')
 
 VARIABLES par, pd, last
 vars == <<par, pd, last>>
 
-Numeric(x) == x \in Vals
+Numeric(x) == x \in Vals \cup {NAN}          \* of numeric type
+Geq(x, y) == x # NAN /\ y # NAN /\ x >= y    \* IEEE comparisons: anything involving NaN is false
+Leq(x, y) == x # NAN /\ y # NAN /\ x <= y
 HasBounds(p) == par[p][2] # NONE \/ par[p][3] # NONE
-Init == /\ par \in [1..NP -> {<<v, NONE, NONE>> : v \in Vals \cup {NN}}
+Init == /\ par \in [1..NP -> {<<v, NONE, NONE>> : v \in Vals \cup {NN, NAN}}
                              \cup {<<v, lo, hi>> : v \in Vals, lo \in Vals \cup {NONE}, hi \in Vals \cup {NONE}}]
         /\ \A p \in 1..NP : (par[p][2] # NONE => par[p][1] >= par[p][2]) /\ (par[p][3] # NONE => par[p][1] <= par[p][3])
         /\ pd = [k \in 1..NKeys |-> IF k <= NP /\ k = 1 THEN 1 ELSE 0]
@@ -31,14 +35,14 @@ Init == /\ par \in [1..NP -> {<<v, NONE, NONE>> : v \in Vals \cup {NN}}
 
 \* Parameter.set(x)
 SetOk(p, x) == /\ (HasBounds(p) => Numeric(x))
-               /\ (par[p][2] # NONE => x >= par[p][2])
-               /\ (par[p][3] # NONE => x <= par[p][3])
+               /\ (par[p][2] # NONE => Geq(x, par[p][2]))
+               /\ (par[p][3] # NONE => Leq(x, par[p][3]))
 Set(p, x) == IF SetOk(p, x)
              THEN par' = [par EXCEPT ![p][1] = x] /\ UNCHANGED pd /\ last' = <<"set", <<p, x>>, "ok">>
              ELSE UNCHANGED <<par, pd>> /\ last' = <<"set", <<p, x>>, "rej">>
 \* Parameter.min_bound = b / max_bound = b   (b = NONE removes the bound; b = NN is a non-numeric bound)
-MinOk(p, b) == b = NONE \/ (Numeric(par[p][1]) /\ Numeric(b) /\ par[p][1] >= b)
-MaxOk(p, b) == b = NONE \/ (Numeric(par[p][1]) /\ Numeric(b) /\ par[p][1] <= b)
+MinOk(p, b) == b = NONE \/ (Numeric(par[p][1]) /\ Numeric(b) /\ Geq(par[p][1], b))
+MaxOk(p, b) == b = NONE \/ (Numeric(par[p][1]) /\ Numeric(b) /\ Leq(par[p][1], b))
 SetMin(p, b) == IF MinOk(p, b)
                 THEN par' = [par EXCEPT ![p][2] = b] /\ UNCHANGED pd /\ last' = <<"setmin", <<p, b>>, "ok">>
                 ELSE UNCHANGED <<par, pd>> /\ last' = <<"setmin", <<p, b>>, "rej">>
@@ -60,16 +64,16 @@ DictRemove(k) ==
    THEN pd' = [pd EXCEPT ![k] = 0] /\ UNCHANGED par /\ last' = <<"dremove", <<k>>, "ok">>
    ELSE UNCHANGED <<par, pd>> /\ last' = <<"dremove", <<k>>, "rej">>
 
-Next == \/ \E p \in 1..NP, x \in Vals \cup {NN} : Set(p, x)
-        \/ \E p \in 1..NP, b \in Vals \cup {NN, NONE} : SetMin(p, b) \/ SetMax(p, b)
-        \/ \E k \in 1..NKeys, x \in Vals \cup {NN} : DictAssign(k, x)
+Next == \/ \E p \in 1..NP, x \in Vals \cup {NN, NAN} : Set(p, x)
+        \/ \E p \in 1..NP, b \in Vals \cup {NN, NONE, NAN} : SetMin(p, b) \/ SetMax(p, b)
+        \/ \E k \in 1..NKeys, x \in Vals \cup {NN, NAN} : DictAssign(k, x)
         \/ \E k \in 1..NKeys, q \in 1..NP : DictInsert(k, q)
         \/ \E k \in 1..NKeys : DictRemove(k)
 Spec == Init /\ [][Next]_vars
 
 \* ---- properties ----
-InBounds == \A p \in 1..NP : /\ (par[p][2] # NONE => (Numeric(par[p][1]) /\ par[p][1] >= par[p][2]))
-                             /\ (par[p][3] # NONE => (Numeric(par[p][1]) /\ par[p][1] <= par[p][3]))
+InBounds == \A p \in 1..NP : /\ (par[p][2] # NONE => (Numeric(par[p][1]) /\ Geq(par[p][1], par[p][2])))
+                             /\ (par[p][3] # NONE => (Numeric(par[p][1]) /\ Leq(par[p][1], par[p][3])))
 BoundsNumeric == \A p \in 1..NP : par[p][2] \in Vals \cup {NONE} /\ par[p][3] \in Vals \cup {NONE}
 RejectedChangesNothing == [][last'[3] = "rej" => UNCHANGED <<par, pd>>]_vars
 \* the dictionary's view is the parameters' view (shared by reference)
